@@ -26,6 +26,7 @@ func runC02(p *eng.Prog, r *eng.Report, tier string) {
 	callerSlicesNotRewritten(c, "C02.10", negSet(c, "C02.10"))
 	jidEqualRule(c, "C02.11")
 	jidAppendsFresh(c, "C02.12")
+	c02TeeWrapsWhatItWasGiven(c, "C02.13")
 	firstParam := ""
 	nf, call := negotiateSite(c, "C01.1")
 	if nf != nil {
@@ -542,3 +543,64 @@ func bitProducers(c *cx, id string, bit int64, name string, allowed map[string]s
 }
 
 var _ = token.NoPos
+
+// c02TeeWrapsWhatItWasGiven (C02.13): newTeeConn returns a tee over exactly
+// the connection it was handed: the connection itself if it already is a tee,
+// or a new teeConn whose Conn is the argument. Reaching through the argument
+// for a tee underneath it (NetConn() of the *tls.Conn that STARTTLS just put
+// on top) hands the session the connection BELOW the new TLS layer while the
+// Secure bit is set: the restarted stream and the password go out in clear.
+func c02TeeWrapsWhatItWasGiven(c *cx, id string) {
+	f := c.fn(id, "", "newTeeConn")
+	if f == nil {
+		return
+	}
+	g := f.Graph()
+	n := 0
+	for _, rs := range g.Returns {
+		if len(rs.Results) != 1 {
+			continue
+		}
+		n++
+		pt, _ := g.Where(rs)
+		okr, why := false, ""
+		nrm := f.Norm(rs.Results[0], &pt)
+		switch {
+		case nrm == "p1.(xmpp.teeConn)" || nrm == "p1.(xmpp.teeConn)#0":
+			okr = true
+		default:
+			// a local teeConn built around p1
+			if idn, ok := ast.Unparen(rs.Results[0]).(*ast.Ident); ok {
+				if v, _ := f.Info().ObjectOf(idn).(*types.Var); v != nil && eng.IsLocal(v) {
+					ds := g.ReachingDefs(v, pt)
+					okr = len(ds) > 0
+					for _, d := range ds {
+						if d.Kind == eng.DefOpaque || d.RHS == nil {
+							continue // field updates of the local (tc.tlsConn = ...)
+						}
+						r := f.Norm(d.RHS, &d.At)
+						if lit, isLit := ast.Unparen(d.RHS).(*ast.CompositeLit); isLit {
+							if cf := structLitField(lit, "Conn"); cf != nil && f.Norm(cf, &d.At) == "p1" {
+								continue
+							}
+						}
+						if r == "p1.(xmpp.teeConn)" || r == "p1.(xmpp.teeConn)#0" {
+							continue
+						}
+						okr = false
+						why = "the tee that is returned is " + r
+					}
+				}
+			} else if lit, isLit := ast.Unparen(rs.Results[0]).(*ast.CompositeLit); isLit {
+				if cf := structLitField(lit, "Conn"); cf != nil && f.Norm(cf, &pt) == "p1" {
+					okr = true
+				}
+			}
+			if !okr && why == "" {
+				why = "returns " + nrm
+			}
+		}
+		c.r.Check(id, f, "tee over the connection it was given", "K: newTeeConn returns its argument (already a tee) or a teeConn whose Conn is the argument", rs.Pos(), okr, why+": a layer of the connection (the TLS layer after STARTTLS) is dropped")
+	}
+	c.r.Floor(id, "returns of newTeeConn", n, 2)
+}
